@@ -7,6 +7,7 @@ import tables
 SERVE = 'serve::serve'
 LOCK = 'serve::with_commit_lock'
 SAFE_JOIN = 'serve::safe_join'
+TMP_OF = 'serve::tmp_of'
 
 # fs calls taking a path: name -> path argument positions (sinks of the C11 taint rule)
 FS_PATH_SINKS = {}
@@ -35,7 +36,7 @@ class Hub:
             ctx.missing(rid, SERVE)
         self.graph = self.cg.reach([SERVE])
         import flow as _flow
-        self.ip = _flow.Interproc(F, opaque={SAFE_JOIN, 'wire::read_frame', 'serve::current_hash', 'meta::fingerprint_path',
+        self.ip = _flow.Interproc(F, opaque={SAFE_JOIN, TMP_OF, 'wire::read_frame', 'serve::current_hash', 'meta::fingerprint_path',
                                               'meta::discover_local_fingerprints', 'transfer::discover_local_files'})
         self._plabel = {}
         self._busy = set()
@@ -90,7 +91,7 @@ class Hub:
                 return {SAFE}
             if c == 'wire::read_frame':
                 return {TAINT}
-            if c in ('std::path::Path::join', 'std::path::Path::parent', 'std::path::Path::with_extension',
+            if c in (TMP_OF, 'std::path::Path::join', 'std::path::Path::parent', 'std::path::Path::with_extension',
                      'std::path::Path::with_file_name', 'std::path::PathBuf::from', 'std::path::Path::strip_prefix'):
                 t = body.blocks[o.bb]['term']
                 out = set()
@@ -173,3 +174,48 @@ class Hub:
             b = self.F.body(p)
             p = b.parent if b is not None else None
         return False
+
+    # ---------------------------------------------------------------- origins across closure captures
+    def deep_origins(self, body, op, mut_calls=False, depth=0):
+        """{(body path, Origin)} with upvar origins replaced by the origins of the captured operand in the parent."""
+        fl = flow_of(body)
+        out = set()
+        for o in fl.origins(op, interproc=self.ip, mut_calls=mut_calls):
+            if o.kind == 'upvar' and o.key is not None and depth < 6:
+                cap = self.capture_operand(body, int(o.key))
+                if cap is not None:
+                    pb, pop = cap
+                    for (bp, x) in self.deep_origins(pb, pop, mut_calls, depth + 1):
+                        out.add((bp, Origin(x.kind, x.key, tuple(x.path) + tuple(o.path), x.bb)))
+                    continue
+            out.add((body.path, o))
+        return out
+
+    def path_class(self, body, op):
+        """'staging' (through tmp_of), 'live' (safe_join-derived, not through tmp_of), 'control' (root-derived), 'other'."""
+        dos = self.deep_origins(body, op)
+        kinds = set()
+        for bp, o in dos:
+            if o.kind == 'call' and o.key == TMP_OF:
+                kinds.add('staging')
+            elif o.kind == 'call' and o.key == SAFE_JOIN:
+                kinds.add('live')
+            elif o.kind == 'call' and o.key in ('std::path::Path::parent',):
+                kinds.add('parent')
+            elif o.kind == 'const' or o.kind in ('comb', 'op', 'agg'):
+                continue
+            elif o.kind == 'call' and o.key == 'std::path::Path::join':
+                b2 = self.F.body(bp)
+                t = b2.blocks[o.bb]['term']
+                lab = self.label_operand(b2, t['args'][0])
+                kinds.add('control' if lab == {ROOT} else 'other')
+            elif o.kind == 'param':
+                lab = self.param_label(self.F.body(bp), o.key)
+                kinds.add('control' if lab == {ROOT} else 'live' if lab == {SAFE} or lab == {SAFE, ROOT} else 'other')
+            else:
+                kinds.add('other')
+        if len(kinds) == 1:
+            return list(kinds)[0]
+        if not kinds:
+            return 'other'
+        return '+'.join(sorted(kinds))
